@@ -179,12 +179,16 @@ def history(rec, rng, r, w):
             elif op == "temperature":
                 comps = list(r.core.iterComponents())
                 c = rng.choice(comps)
+                told = c.temperatureInC
                 try:
                     c.setTemperature(rng.uniform(300, 600))
                     c.getDimension(sorted(c.THERMAL_EXPANSION_DIMS)[0]) if c.THERMAL_EXPANSION_DIMS else None
+                    c.parent.getVolume()
+                    [x.getVolume() for x in c.parent]
                     hist.append("temperature")
-                except RuntimeError:
-                    pass
+                except (RuntimeError, ValueError, ArithmeticError):
+                    # no expansion law, or the expansion made components overlap (negative derived area): not a valid state
+                    c.setTemperature(told)
             elif op == "rotate-block":
                 bs = [b for b in r.core.getBlocks() if hasattr(b, "rotate") and type(b).__name__ == "HexBlock"]
                 if bs:
